@@ -95,6 +95,8 @@ type c10StressHarness struct {
 	conf     map[string]uint64
 	unstable bool
 	panicMsg string
+	// results of sweep()
+	sweepDisagrees, notNested, twoDiffer bool
 }
 
 func (h *c10StressHarness) Reset(init map[string]any) error {
@@ -114,6 +116,7 @@ func (h *c10StressHarness) Reset(init map[string]any) error {
 	h.conf = map[string]uint64{}
 	h.unstable = false
 	h.panicMsg = ""
+	h.sweepDisagrees, h.notNested, h.twoDiffer = false, false, false
 	return nil
 }
 
@@ -153,10 +156,49 @@ func (h *c10StressHarness) Apply(a map[string]any) error {
 				h.unstable = true
 			}
 		}
+		h.sweep()
 	default:
 		return fmt.Errorf("unknown action %v", a)
 	}
 	return nil
+}
+
+// sweep asks fresh instances at every rate of the real table (and rates 0, 1)
+// about this walk's trace ID: agreement with the independent computation,
+// nesting, and agreement of two nodes. Run by the Decide action; sticky flags.
+func (h *c10StressHarness) sweep() {
+	rates, err := c10StressSpace.TableRates(h.model, h.table)
+	if err != nil {
+		h.panicMsg = err.Error()
+		return
+	}
+	dropped := false
+	for _, r := range append([]uint64{0, 1}, rates...) {
+		n1, e1 := c10StressFresh(r)
+		n2, e2 := c10StressFresh(r)
+		if e1 != nil || e2 != nil {
+			h.panicMsg = fmt.Sprint(e1, e2)
+			return
+		}
+		a1, e1 := n1.ask(h.id)
+		a2, e2 := n2.ask(h.id)
+		if e1 != nil || e2 != nil {
+			h.panicMsg = fmt.Sprint(e1, e2)
+			return
+		}
+		if a1 != a2 {
+			h.twoDiffer = true
+		}
+		if a1.keep && dropped {
+			h.notNested = true
+		}
+		if !a1.keep {
+			dropped = true
+		}
+		if a1.keep != c10StressSpace.Expected(r, h.id) {
+			h.sweepDisagrees = true
+		}
+	}
 }
 
 func (h *c10StressHarness) modelRate(r uint) int {
@@ -192,42 +234,10 @@ func (h *c10StressHarness) Project() (any, error) {
 			agrees = false
 		}
 	}
-	nested, two := true, true
-	rates, err := c10StressSpace.TableRates(h.model, h.table)
-	if err != nil {
-		return nil, err
-	}
-	dropped := false
-	for _, r := range append([]uint64{0, 1}, rates...) {
-		n1, e1 := c10StressFresh(r)
-		n2, e2 := c10StressFresh(r)
-		if e1 != nil || e2 != nil {
-			h.panicMsg = fmt.Sprint(e1, e2)
-			break
-		}
-		a1, e1 := n1.ask(h.id)
-		a2, e2 := n2.ask(h.id)
-		if e1 != nil || e2 != nil {
-			h.panicMsg = fmt.Sprint(e1, e2)
-			break
-		}
-		if a1 != a2 {
-			two = false
-		}
-		if a1.keep && dropped {
-			nested = false
-		}
-		if !a1.keep {
-			dropped = true
-		}
-		if a1.keep != c10StressSpace.Expected(r, h.id) {
-			agrees = false
-		}
-	}
 	out["ans"] = ans
-	out["agrees"] = agrees
-	out["nested"] = nested
-	out["twoInstancesAgree"] = two
+	out["agrees"] = agrees && !h.sweepDisagrees
+	out["nested"] = !h.notNested
+	out["twoInstancesAgree"] = !h.twoDiffer
 	out["repeatable"] = !h.unstable
 	if h.panicMsg != "" {
 		out["panic"] = h.panicMsg
